@@ -123,6 +123,7 @@ type c13Opt struct {
 	secondShutdown bool
 	fireDeadline   bool // S4: an environment thread lets one pending read deadline expire at any point
 	badReader      bool // S5: DecorateReader returns a Reader without ReadPacketConn: the serve call fails at once
+	ownCloseErr    bool // the listener's Accept reports its closing with an error of its own (as wrapping listeners do), not net.ErrClosed
 	restart        bool // S9: the Server value has been through a complete start / Shutdown cycle before the scenario proper
 	both           bool // S8: the Server holds a PacketConn and a Listener
 	handlerCloses  bool // S7: the handler closes the connection through ResponseWriter.Close after (or instead of) its reply
@@ -176,6 +177,7 @@ func c13Scenario(name string, o c13Opt) *e2x.Scenario {
 			srv = &dns.Server{}
 			if o.transport == "tcp" {
 				ln = simnet.NewListener("ln")
+				ln.OwnCloseError = o.ownCloseErr
 				srv.Listener = ln
 			} else {
 				pc = simnet.NewPacketConn("pc")
@@ -513,6 +515,8 @@ func c13Spaces(c *fw.Ctx) {
 		{"S4/pc/1-client+read-timeout", c13Opt{transport: "pc", clients: []string{"full"}, fireDeadline: true}, 1, 2},
 		{"S7/tcp/handler-closes-connection", c13Opt{transport: "tcp", clients: []string{"full"}, handlerCloses: true}, 2, 3},
 		{"S7/pc/handler-closes-writer", c13Opt{transport: "pc", clients: []string{"full"}, handlerCloses: true}, 1, 2},
+		{"S1/tcp/0-clients/listener-with-own-close-error", c13Opt{transport: "tcp", ownCloseErr: true}, 100, 100},
+		{"S1/tcp/1-client/listener-with-own-close-error", c13Opt{transport: "tcp", ownCloseErr: true, clients: []string{"full"}}, 1, 2},
 		{"S9/tcp/restarted-server+1-client", c13Opt{transport: "tcp", restart: true, clients: []string{"full"}}, 2, 3},
 		{"S9/pc/restarted-server+1-client", c13Opt{transport: "pc", restart: true, clients: []string{"full"}}, 2, 3},
 		{"S8/pc+listener/1-client", c13Opt{transport: "pc", both: true, clients: []string{"full"}}, 1, 2},
